@@ -358,6 +358,9 @@ pub fn ev_iter<K: Kmer + Send + Sync>(sink: &Sink, r: &mut Rng, inp: &GInput, no
                 all.push(mer_bases(&km));
             }
         }
+        // the node iterator and the Node accessors: ids 0..n-1 in order, each with its own sequence / extensions / payload
+        let via_iter: Vec<Value> = g.iter_nodes().map(|nd| json!({"id": nd.node_id, "len": nd.len(), "empty": nd.is_empty(),
+            "s": nd.sequence().bytes(), "l": exts_l(nd.exts()), "r": exts_r(nd.exts()), "d": nd.data()})).collect();
         let n = all.len() as u64;
         let mut slots: Vec<u64> = Vec::new();
         let mut pslots: Vec<u64> = Vec::new();
@@ -370,13 +373,16 @@ pub fn ev_iter<K: Kmer + Send + Sync>(sink: &Sink, r: &mut Rng, inp: &GInput, no
                 pslots.push(mp.hash(&kk));
             }
         }
-        (all, lens, slots, pslots)
+        (all, lens, slots, pslots, via_iter, g.len(), g.is_empty())
     });
     sink.end_case();
     let mut e = desc;
     e["case"] = json!(case);
     match res {
-        Ok((all, lens, slots, pslots)) => {
+        Ok((all, lens, slots, pslots, via_iter, glen, gempty)) => {
+            e["via_iter"] = json!(via_iter);
+            e["glen"] = json!(glen);
+            e["gempty"] = json!(gempty);
             e["all"] = json!(all);
             e["lens"] = json!(lens);
             e["slots"] = json!(slots);
@@ -388,6 +394,9 @@ pub fn ev_iter<K: Kmer + Send + Sync>(sink: &Sink, r: &mut Rng, inp: &GInput, no
             e["lens"] = json!([]);
             e["slots"] = json!([]);
             e["pslots"] = json!([]);
+            e["via_iter"] = json!([]);
+            e["glen"] = json!(0);
+            e["gempty"] = json!(true);
             e["panic"] = json!(m);
         }
     }
